@@ -1,7 +1,7 @@
 (* C18: theorems about the algebra layer of model/RedVar.v, proved on the MathComp instance of the
    matrix interface (lib/MxC18MC.v) over an arbitrary real field F.
    numpy.linalg.solve enters only through its contract [solve_spec]. *)
-From Verif Require Import lib.MxC18 lib.MxC18MC model.RedVar.
+From Verif Require Import lib.MxC18 lib.MxC18MC gen.RedVarGen model.RedVar.
 From mathcomp Require Import all_ssreflect all_algebra.
 From mathcomp Require Import ring.
 
@@ -33,7 +33,7 @@ Implicit Types (L : 'M[F]_(n, N)) (R : 'M[F]_(r, N)).
 Lemma ols_normal_equations L R :
   R *m R^T \in unitmx -> ols (M := MCF) L R *m (R *m R^T) = L *m R^T.
 Proof.
-move=> u; rewrite /ols /=.
+move=> u; rewrite /ols /gen_ols /=.
 have := @solve_spec _ _ (R *m R^T) (R *m L^T) u.
 move/(congr1 trmx); rewrite !trmx_mul !trmxK => <-.
 by [].
@@ -83,14 +83,17 @@ Proof. by apply/matrixP=> i j'; rewrite !mxE; apply: eq_bigr => l _; rewrite !mx
 
 
 (* ---- covariance ---- *)
+Lemma dof_count_intercept n q m k dof : (k <= 1)%N -> dof_count n q m k dof = if dof then (m + k)%N else 0%N.
+Proof. by case: k => [|[|k]] //; case: dof. Qed.
+
 Lemma second_moment_sym n Nw d (Uw : 'M[F]_(n, Nw)) :
   (second_moment (M := MCF) d Uw)^T = second_moment (M := MCF) d Uw.
-Proof. by rewrite /second_moment /= linearZ /= linearD /= trmxK addrC. Qed.
+Proof. by rewrite /second_moment /gen_symmetrize /gen_cov_residuals /= linearZ /= linearD /= trmxK addrC. Qed.
 
 Lemma second_moment_eq n Nw d (Uw : 'M[F]_(n, Nw)) : (2%:R : F) != 0 ->
   second_moment (M := MCF) d Uw = (Nw%:R - d%:R)^-1 *: (Uw *m Uw^T).
 Proof.
-move=> two; rewrite /second_moment /=.
+move=> two; rewrite /second_moment /gen_symmetrize /gen_cov_residuals /=.
 set S := _ *: (Uw *m Uw^T).
 have -> : S^T = S by rewrite /S linearZ /= trmx_mul trmxK.
 by rewrite -mulr2n -scaler_nat scalerA mulVf // scale1r.
@@ -246,7 +249,7 @@ Proof. by apply/matrixP=> i j; rewrite !mxE ord1. Qed.
 
 Lemma col_U (t : 'I_N) : col t U = resid t.
 Proof.
-rewrite /U /residuals /= !linearB /= !col_mulmx !col_of_cols /resid.
+rewrite /U /residuals /gen_residuals /= !linearB /= !col_mulmx !col_of_cols /resid.
 have -> : col t (const_mx 1 : 'M[F]_(k, N)) = const_mx 1 by apply/matrixP=> i j; rewrite !mxE.
 have -> : col t Y1 = stackf q.+1 (hist t) by exact: (col_of_cols (fun t' => stackf q.+1 (hist t'))).
 by rewrite /cv /cvec /= !opprD !addrA.
@@ -400,7 +403,7 @@ Qed.
 
 (* residual covariance = (optionally dof-corrected) second moment of the residuals on the fitted columns *)
 Theorem est_cov : (2%:R : F) != 0 ->
-  cov = (Nw%:R - (dof_count m k dof)%:R)^-1 *: (colsel w U *m (colsel w U)^T) /\ cov^T = cov.
+  cov = (Nw%:R - (dof_count n q m k dof)%:R)^-1 *: (colsel w U *m (colsel w U)^T) /\ cov^T = cov.
 Proof. by move=> two; split; [exact: second_moment_eq | exact: second_moment_sym]. Qed.
 
 (* noise-free data generated by a VAR (and dummy observations consistent with it) return that VAR *)
@@ -420,12 +423,29 @@ have -> : colsel w (residuals (M := MCF) (n := n) (q := q) (m := m) (k := k)
             (coef_A (M := MCF) (n := n) (q := q) (m := m) (k := k) beta)
             (coef_B (M := MCF) (n := n) (q := q) (m := m) (k := k) beta)
             (coef_c (M := MCF) (n := n) (q := q) (m := m) (k := k) beta) Y0 Y1 X Kc) = 0 by exact: eU.
-by rewrite /second_moment /= mul0mx scaler0 trmx0 addr0 scaler0.
+by rewrite /second_moment /gen_symmetrize /gen_cov_residuals /= mul0mx scaler0 trmx0 addr0 scaler0.
 Qed.
 
 End Estimate.
 
 End RedVarTheory.
+
+(* without prior observations (no dummy columns) the orthogonality is the plain one *)
+Theorem est_residual_orthogonal_no_prior (F : fieldType) (solve : forall n p : nat, 'M[F]_n -> 'M[F]_(n, p) -> 'M[F]_(n, p))
+    (n q m k N Nw : nat) (w : 'I_Nw -> 'I_N) (dof : bool)
+    (Y0 : 'M[F]_(n, N)) (Y1 : 'M[F]_(n + q * n, N)) (X : 'M[F]_(m, N)) (Kc : 'M[F]_(k, N))
+    (Ld : 'M[F]_(n, 0)) (Rd : 'M[F]_(n + q * n + (m + k), 0)) :
+  solve_contract solve ->
+  let est := estimate_core (M := MC solve) (n := n) (q := q) (m := m) (k := k) w dof Y0 Y1 X Kc Ld Rd in
+  let Rw : 'M[F]_(n + q * n + (m + k), Nw) := colsel w (col_mx Y1 (col_mx X Kc)) in
+  let U : 'M[F]_(n, N) := est.2.1.2 in
+  Rw *m Rw^T \in unitmx -> colsel w U *m Rw^T = 0.
+Proof.
+move=> sc; rewrite [Rd]thinmx0 => est Rw U u.
+have := @est_residual_orthogonal F solve sc n q m k N Nw 0%N w dof Y0 Y1 X Kc Ld 0.
+rewrite trmx0 mulmx0 addr0; apply.
+by rewrite /= tr_row_mx mul_row_col trmx0 mulmx0 addr0.
+Qed.
 
 (* ------------------------------------------------------------------ *)
 (* non-vacuity: the contract and the full-rank hypothesis are satisfiable *)
